@@ -1,3 +1,6 @@
+//@@ implshape src/multipart.rs impl~Body~for~Multipart kind,write,content_type
+//@@ implshape src/multipart_crate/lazy.rs impl~Read~for~PreparedFields read
+//@@ implshape src/multipart_crate/lazy.rs impl~Read~for~PreparedField read
 // ===================== extracted code: src/multipart_crate/lazy.rs, src/multipart.rs =====================
 //@@ fn src/multipart_crate/lazy.rs - cursor_at_end props=C15,C05
 //@@ rw R1
